@@ -274,9 +274,12 @@ def build(tier="quick", seed=0):
 
     for e in EXPRESSIONS:
         pack.add(expr_obligation(e))
-    # generator expressions that re-use a loop variable name: refusing them is allowed (the interpreted engine has one flat namespace), a wrong answer is not
-    for e in ["any(any(x == 'b' for x in r.sl) and x == 'a' for x in r.sl)", "any(x == 'a' for x in r.sl) and any(x == 'b' for x in r.sl)", "all(any(x == y for x in r.sl) for y in r.sl) and any(y == 'a' for y in r.sl)",
-              "any(x == 'b' for x in r.sl for x in r.sl)"]:
+    # generator expressions one after the other may use the same loop variable name: Python's meaning, no refusal
+    for e in ["any(x == 'a' for x in r.sl) and any(x == 'b' for x in r.sl)", "all(any(x == y for x in r.sl) for y in r.sl) and any(y == 'a' for y in r.sl)",
+              "any(x == 'a' for x in r.sl) or any(x == r.s for x in r.sl)", "not any(x == 'b' for x in r.sl) and all(x != r.t for x in r.sl)"]:
+        pack.add(expr_obligation(e))
+    # a generator expression that shadows a loop variable that is still live: refusing is allowed (the interpreted engine has one flat namespace), a wrong answer is not
+    for e in ["any(any(x == 'b' for x in r.sl) and x == 'a' for x in r.sl)", "any(x == 'b' for x in r.sl for x in r.sl)"]:
         pack.add(expr_obligation(e, may_refuse=True))
 
     # outside the language: rejected with an error, never evaluated to a value (interpreted engine)
